@@ -141,6 +141,20 @@ theorem map_canon_of_keyEq : ∀ {a b : List PyKey}, keyEq a b = true → a.map 
       simp only [keyEq, Bool.and_eq_true] at h
       simp only [List.map_cons, canon_of_pyEq h.1, ih h.2]
 
+/-- `lru_cache` key equality is at most argument-tuple equality -/
+theorem keyEq_of_lruKeyEq {a b : List PyKey} (h : lruKeyEq a b = true) : keyEq a b = true := by
+  unfold lruKeyEq at h
+  split at h
+  · rename_i x y
+    simp only [keyEq, Bool.and_true]
+    split at h
+    · simp only [Bool.and_eq_true] at h; exact h.2
+    · exact h
+  · exact h
+
+theorem map_canon_of_lruKeyEq {a b : List PyKey} (h : lruKeyEq a b = true) : a.map canon = b.map canon :=
+  map_canon_of_keyEq (keyEq_of_lruKeyEq h)
+
 theorem keyEq_refl : ∀ (a : List PyKey), keyEq a a = true := by
   intro a
   induction a with
